@@ -368,7 +368,10 @@ func makePlan(seed int64, variant int) *plan {
 		case 2: // a heavier branch that turns out invalid when connected
 			fork := ref.Tip.Parent
 			par := fork
-			bad := 1 + r.Intn(2)
+			// bad = 0: the invalid block itself merely ties with the tip when it arrives, is stored unvalidated and (after an
+			// idle) flushed to disk; the next block makes the branch heavier, the reorganisation fails on the stored block
+			// and its record on disk gets the invalid flag - which every later start has to step over
+			bad := r.Intn(3)
 			for i := 0; i < 4; i++ {
 				var b *refchain.Block
 				if i == bad {
@@ -378,6 +381,9 @@ func makePlan(seed int64, variant int) *plan {
 				}
 				add(b, "invalid-branch")
 				par = g.PlanNode(b, par)
+				if r.Intn(2) == 0 {
+					ctl("idle")
+				}
 			}
 		case 3:
 			ctl("idle")
